@@ -61,6 +61,9 @@ static uint64_t rnd2(void) {
   return g_rng2[1] + s0;
 }
 void sched_set_stall(int permille, int64_t max_us) { g_stall_permille = permille; g_stall_max_us = max_us > 0 ? max_us : 1; }
+static int g_spurious_permille; static long g_spurious;
+void sched_set_spurious(int permille) { g_spurious_permille = permille; }
+long sched_spurious_wakeups(void) { return g_spurious; }
 long sched_stalls(void) { return g_stalls; }
 int64_t sched_stall_total_us(void) { return g_stall_total_us; }
 int64_t sched_thread_deadline(int tid) { return tid >= 0 && tid < nT ? T[tid].deadline : -1; }
@@ -115,7 +118,7 @@ void sched_init(uint64_t seed, int policy, int preempt_permille, const struct sc
   for (int i = 0; i < 8; i++) rnd();
   g_rng2[0] = seed * 0xD6E8FEB86659FD93ULL + 7; g_rng2[1] = seed ^ 0xA0761D6478BD642FULL;
   for (int i = 0; i < 8; i++) rnd2();
-  g_stalls = 0; g_stall_total_us = 0;
+  g_stalls = 0; g_stall_total_us = 0; g_spurious = 0;
   g_policy = policy; g_preempt = preempt_permille;
   g_steps = 0; g_switches = 0; g_max_steps = max_steps;
   g_dec_cap = MAXD; g_dec = (int *)malloc(sizeof(int) * MAXD); g_ndec = 0; g_dec_pos = 0; g_replay = 0;
@@ -368,7 +371,13 @@ static int cond_wait_common(pthread_cond_t *c, pthread_mutex_t *m, int64_t deadl
   e->count = 0; e->owner = 0;
   for (int i = 0; i < saved; i++) pthread_mutex_unlock(m);
   t->waiting_cond = c; t->cond_woken = 0;
-  int r = sched_wait(pred_woken, t, deadline, WHY_COND);
+  int r;
+  if (g_spurious_permille > 0 && (int)(rnd2() % 1000) < g_spurious_permille) {
+    /* spurious wake-up (POSIX allows it): return without having been signalled */
+    g_spurious++;
+    sched_point(WHY_COND);
+    r = 1;
+  } else r = sched_wait(pred_woken, t, deadline, WHY_COND);
   t->waiting_cond = 0;
   sim_lock_only(e);
   e->count = saved;
